@@ -208,3 +208,136 @@ class CheckStatsRoundTrip(Contract):
 
 
 CONTRACTS = [CheckStatsRoundTrip]
+
+
+# ---------------------------------------------------------------------------------------
+# parse_checks: list of Check objects -> {name: statistics + options}
+# ---------------------------------------------------------------------------------------
+
+UNREGISTERED = "not_a_registered_check"
+
+
+def install_class_contains(I):
+    """`x in Check` is MetaCheck.__contains__(Check, x): run its live source (the interpreter has no rule for `in` on a class)"""
+    from pandera.api.base.checks import MetaCheck
+
+    orig = I.contains
+
+    def contains(c, x):
+        if isinstance(c, type) and isinstance(c, MetaCheck):
+            return I.call(MetaCheck.__dict__["__contains__"].__wrapped__ if hasattr(MetaCheck.__dict__["__contains__"], "__wrapped__") else MetaCheck.__dict__["__contains__"], [c, x], {})
+        return orig(c, x)
+
+    I.contains = contains
+
+
+def check_object(label, name, simple=True, dtype_kind="int64"):
+    """a pre-existing Check object of the given (concrete) registered name with symbolic statistics and options"""
+    stats = DictObj()
+    if name != UNREGISTERED:
+        for key in SHAPES[name]:
+            if simple:
+                stats[key] = T.fresh_value(T.Real, f"{label}.{key}") if key in ("min_value", "max_value") and name != "str_length" else SAny(name=f"{label}.{key}")
+            else:
+                stats[key] = stat_value(name, key, dtype_kind, f"{label}.{key}")
+    stats.pre, stats.name = True, f"{label}.statistics"
+    o = T.Ref(Check, strict=True, raise_warning=T.Bool, n_failure_cases=T.Opt(T.Nat), ignore_na=T.Bool).fresh(label)
+    for k, v in (("name", name), ("statistics", stats)):
+        o.attrs[k] = v
+        o.attrs0[k] = v
+    return o
+
+
+def documented_options(chk):
+    from contracts.util import fld0
+
+    out = {}
+    for o in OPTION_NAMES:
+        v = fld0(chk, o)
+        if v is not None:
+            out[o] = v
+    return out
+
+
+class ParseChecks(Contract):
+    """parse_checks(checks): one entry per check, in order, holding the check's statistics and its options; None for no
+    checks; unregistered checks are skipped with a warning; ValueError only for contradictory ge / le bounds."""
+
+    target = f"{STATS}:parse_checks"
+    split = {"first": [None] + NAMES + [UNREGISTERED]}
+    raises = (ValueError,)
+    max_paths = 20000
+
+    def setup(self, I):
+        serial.install(I)
+        install_class_contains(I)
+
+    def make_args(self):
+        first = self.fixed.get("first")
+        names = []
+        if first is not None:
+            core.register_model_var("checks[0].name", lambda m: first)
+            names.append(first)
+            k = cur().choose([("<end>", None)] + [(n, None) for n in NAMES], "checks[1].name")
+            if k > 0:
+                names.append(NAMES[k - 1])
+                core.register_model_var("checks[1].name", lambda m, k=k: NAMES[k - 1])
+        if len(names) == 2:
+            cur().labels.append("same_name" if names[0] == names[1] else "distinct_names")
+        objs = [check_object(f"checks[{i}]", n) for i, n in enumerate(names)]
+        g = cur().ghost
+        g["c12"] = dict(names=names, objs=objs, stats0=[dict(o.attrs["statistics"]) for o in objs])
+        return {"checks": ListObj(objs)}
+
+    def modifies(self, checks):
+        # the function hands out the checks' own statistics dicts and attaches `options` to them (aliasing; the serialisers
+        # detach it again - CheckStatsRoundTrip.callers_statistics_not_rewritten / SchemaRoundTrip.schema_unchanged)
+        return [("container", id(o.attrs["statistics"])) for o in checks]
+
+    def ensures(self, result, old, checks):
+        g = cur().ghost["c12"]
+        names, objs = g["names"], g["objs"]
+        reg = [(n, o, s0) for n, o, s0 in zip(names, objs, g["stats0"]) if n != UNREGISTERED]
+        warns = [e for e in cur().events if e[0] == "warn"]
+        out = {"unregistered_checks_skipped_with_a_warning": len(warns) == len(names) - len(reg)}
+        out["none_iff_nothing_to_serialise"] = (result is None) == (not reg)
+        if result is None:
+            return out
+        out["is_a_dict"] = isinstance(result, (dict, DictObj))
+        out["one_entry_per_check"] = len(result) == len(reg)
+        distinct = []
+        for n, _, _ in reg:
+            if n not in distinct:
+                distinct.append(n)
+        out["one_entry_per_distinct_check_name_in_check_order"] = list(result) == distinct
+        for i, (n, o, s0) in enumerate(reg):
+            if any(n2 == n for n2, _, _ in reg[i + 1:]):
+                continue  # shadowed by a later check of the same name (known finding); the survivor is checked
+            e = result.get(n)
+            if not isinstance(e, (dict, DictObj)):
+                out["entry_is_a_record"] = False
+                continue
+            out[f"entry_holds_the_statistics"] = out.get("entry_holds_the_statistics", True) and \
+                [k for k in e if k != "options"] == list(s0) and all(e[k] is v for k, v in s0.items())
+            want = documented_options(o)
+            got = e.get("options")
+            ok = isinstance(got, (dict, DictObj)) and sorted(got) == sorted(want)
+            out["entry_holds_every_documented_option"] = out.get("entry_holds_every_documented_option", True) and ok
+            if ok:
+                for k in want:
+                    out[f"option_{k}_value"] = And(out.get(f"option_{k}_value", True), same(got[k], want[k]))
+            cur_stats = o.attrs["statistics"]
+            out["statistics_only_gain_the_options_entry"] = out.get("statistics_only_gain_the_options_entry", True) and \
+                all(cur_stats.get(k) is v for k, v in s0.items()) and set(cur_stats) <= set(s0) | {"options"}
+        return out
+
+    def on_raise(self, exc, old, checks):
+        g = cur().ghost["c12"]
+        by = {n: o for n, o in zip(g["names"], g["objs"])}
+        ge, le = by.get("greater_than_or_equal_to"), by.get("less_than_or_equal_to")
+        if ge is None or le is None:
+            return {"value_error_only_for_contradictory_bounds": False}
+        return {"value_error_only_for_contradictory_bounds": ge.attrs["statistics"]["min_value"] > le.attrs["statistics"]["max_value"]}
+
+
+CONTRACTS.append(ParseChecks)
